@@ -51,13 +51,122 @@ def expand_new_helper(repo, f, value):
     return T().visit(expr)
 
 
+def _check_list_simplify_meaning(ctx, repo):
+    import itertools
+    from ..sim import _literal_elts
+    from .common import nonempty_atom
+    f = repo.func('MatcherList.simplify')
+    K = 3 if ctx.tier == 'thorough' else 2
+    paths = paths_of(repo, f, unroll=K, expand_maps=True, stable_attrs=('self.positive', 'self.negative'), max_paths=60000)
+    VERD = re.compile(r'^(.*?)(?:\.simplify\(\))?\.always\(\) is (not )?(True|False)$')
+
+    def atom_of(x):
+        t = norm(x)
+        return t[:-len('.simplify()')] if t.endswith('.simplify()') else t
+    nret = 0
+    bad = None
+    undecided = None
+    for p in paths:
+        if p.truncated or p.outcome[0] != 'return':
+            continue
+        # members: the first rewrite of each list maps simplify() over it; before that only emptiness may have been tested
+        lists = {'self.positive': None, 'self.negative': None}
+        final = {'self.positive': None, 'self.negative': None}
+        for e in p.events:
+            if e.kind == 'store' and e.target in lists:
+                el = _literal_elts(e.value) if e.value is not None else None
+                if el is None and isinstance(e.value, ast.List) and not e.value.elts:
+                    el = []
+                if lists[e.target] is None and el is not None:
+                    lists[e.target] = [atom_of(x) for x in el]
+                final[e.target] = [atom_of(x) for x in el] if el is not None else '?'
+        empt = None
+        for a, v in p.decisions:
+            ne = nonempty_atom(a.text, 'self.positive')
+            if ne is not None and empt is None:
+                empt = (v != ne)
+        P, N = lists['self.positive'], lists['self.negative']
+        if P is None:
+            if empt is True:
+                P, N = [], (N or [])
+            else:
+                undecided = undecided or 'a path returns before the alternatives are known: %s' % p.describe()[:120]
+                continue
+        if N is None:
+            N = []
+        if empt is not None and empt != (len(P) == 0):
+            continue            # infeasible: the emptiness test contradicts the number of members on this path
+        facts = {}
+        clash = False
+        for a, v in p.decisions:
+            m = VERD.match(a.text)
+            if not m:
+                continue
+            is_ = v if not m.group(2) else (not v)
+            key = (m.group(1), m.group(3))
+            clash = clash or facts.get(key, is_) != is_
+            facts[key] = is_
+        if clash or any(facts.get((x, 'True')) and facts.get((x, 'False')) for x in P + N):
+            continue
+        rv = p.outcome[1]
+        rt = norm(rv)
+        elem = None
+        if isinstance(rv, ast.Subscript) and isinstance(rv.slice, ast.Constant) and isinstance(rv.slice.value, int):
+            el = _literal_elts(rv.value)
+            if el is not None and -len(el) <= rv.slice.value < len(el):
+                elem = atom_of(el[rv.slice.value])
+        elif atom_of(rv) in P + N:
+            elem = atom_of(rv)
+        nret += 1
+        fp = final['self.positive'] if final['self.positive'] is not None else P
+        fn = final['self.negative'] if final['self.negative'] is not None else N
+        members = sorted(set(P + N))
+        unknown_keys = [(x, w) for x in members for w in ('True', 'False') if (x, w) not in facts]
+        for combo in itertools.product([False, True], repeat=len(unknown_keys)):
+            F = dict(facts)
+            F.update(zip(unknown_keys, combo))
+            if any(F[(x, 'True')] and F[(x, 'False')] for x in members):
+                continue
+            free = [x for x in members if not F[(x, 'True')] and not F[(x, 'False')]]
+            for sigma in itertools.product([False, True], repeat=len(free)):
+                val = dict(zip(free, sigma))
+
+                def V(x):
+                    return True if F.get((x, 'True')) else (False if F.get((x, 'False')) else val.get(x))
+                before = any(V(x) for x in P) and not any(V(x) for x in N)
+                if rt == 'AlwaysMatcher(False)':
+                    after = False
+                elif rt == 'AlwaysMatcher(True)':
+                    after = True
+                elif elem is not None:
+                    after = V(elem)
+                elif rt == 'self' and fp != '?' and fn != '?' and all(x in members for x in fp + fn):
+                    after = any(V(x) for x in fp) and not any(V(x) for x in fn)
+                else:
+                    undecided = undecided or 'simplify returns %s with lists %s / %s' % (rt[:60], fp, fn)
+                    after = before
+                if after != before and bad is None:
+                    verdicts = {x: ('always true' if F[(x, 'True')] else 'always false' if F[(x, 'False')] else 'a real matcher') for x in members}
+                    bad = 'alternatives %s, exclusions %s with %s: the list %s a message on which the real matchers say %s, but what simplify returns (%s%s) %s it' % (
+                        P, N, verdicts, 'selects' if before else 'does not select', val, rt[:50], (' with alternatives %s / exclusions %s' % (fp, fn)) if rt == 'self' else '',
+                        'selects' if after else 'does not select')
+    ctx.check(bad is None, 'C12.6', 'MatcherList.simplify:meaning-preserved', f.loc(),
+              'what simplify returns selects the same messages as the list before (every combination of constant and real members, up to %d per side)' % K, bad)
+    ctx.check(undecided is None, 'C12.6', 'MatcherList.simplify:decided', f.loc(), 'every returning path of simplify is decided', 'cannot decide: %s' % undecided)
+    ctx.floor('C12.6', nret, 12, 'feasible returning paths of MatcherList.simplify')
+
+
 def run(ctx):
     repo = ctx.repo
     ctx.decided = ['C12.1 failed parse keeps the old matcher and reports', 'C12.2 each command updates its own matcher',
                    'C12.3 stored matchers are simplified', 'C12.4 join: replace vs extend, field-wise',
-                   'C12.5 list semantics: some alternative and no exclusion', 'C12.6 simplify drops only constant members']
+                   'C12.5 list semantics: some alternative and no exclusion', 'C12.6 simplify drops only constant members',
+                   'C12.7 every command parses a matcher object of its own (join and simplify modify the parsed lists in place)']
     ctx.undecided = ['the meaning of the individual alternatives (C05)']
     f_paj = repo.func('Controller.parse_and_join')
+    # ---- C12.7: join() extends and simplify() rewrites the freshly parsed lists in place, so the object a command parses must be its own
+    from .common import check_no_memoised_mutables
+    check_no_memoised_mutables(ctx, 'C12.7', [f_paj], 'command')
     raises_parse = lambda e: ['RuntimeError'] if (e.ftext or '') in ('matcher.parse', 'parse') else ()
     ppaths = paths_of(repo, f_paj, may_raise=raises_parse)
     # ---- C12.1 / C12.3 ---------------------------------------------------------------------------------
@@ -161,6 +270,8 @@ def run(ctx):
             # input lists: cat(..), keep-not-star(..), [*].  Evaluated over the stores / appends of the path, so `+=`, rebuilt lists,
             # temporaries and conditional expressions all give the same term.
             NP, NN, OP, ON = '_as_list(new).positive', '_as_list(new).negative', '_as_list(old).positive', '_as_list(old).negative'
+            oil = [v for a, v in p.decisions if a.text == 'isinstance(old, MatcherList)']
+            old_is_list = oil[-1] if oil else None
             cur = {NP: ('cat', [('base', 'NP')]), NN: ('cat', [('base', 'NN')]), OP: ('cat', [('base', 'OP')]), ON: ('cat', [('base', 'ON')])}
 
             def alg(e_, depth=0):
@@ -172,6 +283,12 @@ def run(ctx):
                 t_ = norm(e_)
                 if t_ in cur:
                     return cur[t_]
+                # _as_list(m) is m itself when m is a list and MatcherList([m], []) otherwise (checked below): on a path that has decided
+                # which of the two `old` is, its lists may be read directly
+                if old_is_list is True and t_ in ('old.positive', 'old.negative'):
+                    return cur[OP if t_ == 'old.positive' else ON]
+                if old_is_list is False and t_ == '[old]':
+                    return cur[OP]
                 if isinstance(e_, ast.BinOp) and isinstance(e_.op, ast.Add):
                     return ('cat', alg(e_.left, depth + 1)[1] + alg(e_.right, depth + 1)[1])
                 if isinstance(e_, ast.List):
@@ -226,7 +343,8 @@ def run(ctx):
                 why = 'the alternatives are the new ones followed by the old ones, without * alternatives'
             ctx.check(bool(empties) and pos in want_pos, 'C12.4', 'join:alternatives:%s' % ('empty' if empties and empties[-1] else 'specific'), f_join.loc(), why,
                       'join leaves the alternatives as %s (emptiness decided: %s); expected %s' % (pos, empties, want_pos[0]))
-            ctx.check(cur[NN][1] == [('base', 'NN'), ('base', 'ON')], 'C12.4', 'join:exclusions-kept', f_join.loc(), 'the exclusions are the new ones followed by the old ones: none is dropped',
+            want_neg = [[('base', 'NN'), ('base', 'ON')]] + ([[('base', 'NN')]] if old_is_list is False else [])      # a single old matcher has no exclusions
+            ctx.check(cur[NN][1] in want_neg, 'C12.4', 'join:exclusions-kept', f_join.loc(), 'the exclusions are the new ones followed by the old ones: none is dropped',
                       'join leaves the exclusions as %s' % (cur[NN][1],))
     ctx.floor('C12.4', len(jpaths), 4, 'paths of join')
     f_al = repo.func('matcher._as_list')
@@ -266,7 +384,13 @@ def run(ctx):
     # ---- C12.6 simplify never drops (or merges) a non-constant alternative / exclusion ----------------------------------------
     MAP = re.compile(r'^\[(\w+)\.simplify\(\) for \1 in self\.(positive|negative)\]$')
     FLT = re.compile(r'^\[(\w+) for \1 in self\.(positive|negative) if (?:not \1\.always\(\) is False|\1\.always\(\) is not False)\]$')
-    for q in ('MatcherList.simplify', 'ArgsMatcherList.simplify'):
+    # MatcherList.simplify is decided semantically: on every path (lists of up to 2 - thorough: 3 - members, each member's always()
+    # verdict decided) what is returned must MEAN the same as the list before: `some alternative and no exclusion`, with a member
+    # that is always true / always false standing for true / false and every other member for an unknown of its own.  Members' own
+    # simplify() is assumed meaning-preserving (this very obligation, one level down).  Assumption: a member is never its own container,
+    # so the calls on members do not rewrite self.positive / self.negative (matchers are built as trees by the parser).
+    _check_list_simplify_meaning(ctx, repo)
+    for q in ('ArgsMatcherList.simplify',):
         f = repo.func(q)
         ns = 0
         for n in f.body_nodes():
@@ -294,6 +418,6 @@ def run(ctx):
                 ctx.check(ok, 'C12.6', '%s:%s<-%s' % (q, which, t[:60]), f.loc(n),
                           'simplify rewrites %s only by simplifying each element, dropping never-matching constants, or collapsing to a single * alternative' % which,
                           '%s rewrites self.%s as %s: alternatives/exclusions that are not constants can be dropped or merged, so accumulated matchers lose members' % (q, which, t[:100]))
-        ctx.floor('C12.6', ns, 3, 'list rewrites in ' + q)
+        ctx.floor('C12.6', ns, 2, 'list rewrites in ' + q)
     return ('path enumeration of parse_and_join (with a modelled parse failure), of join and of MatcherList.matches; typestate of the '
             'stored matchers. Decided: %s. Undecided: %s' % ('; '.join(ctx.decided), '; '.join(ctx.undecided)))
